@@ -32,7 +32,7 @@ func verifSeed() uint64 { return uint64(envInt("VERIF_SEED", 1)) }
 func TestEntry(t *testing.T) {
 	switch os.Getenv("VERIF_MODE") {
 	case "driver":
-		os.Exit(driverMain())
+		os.Exit(driverMain(t))
 	case "worker":
 		workerMain(t)
 	case "one":
@@ -394,7 +394,7 @@ func parseBins() map[string]string {
 	return m
 }
 
-func driverMain() int {
+func driverMain(t *testing.T) int {
 	prop := os.Getenv("VERIF_PROP")
 	tier := os.Getenv("VERIF_TIER")
 	if tier != "thorough" {
@@ -531,6 +531,42 @@ func driverMain() int {
 		}
 		wg.Wait()
 		perVariant[ck.Build] = map[string]interface{}{"runs": vsum.Runs, "budget_s": budgetS, "workers": nw}
+	}
+	// pinned replays of open known findings: each KNOWN-FINDING line is backed by a current reproduction
+	for i := range known {
+		k := &known[i]
+		if k.Property != prop || k.Status != "open" || k.Replay == "" {
+			continue
+		}
+		b, err := os.ReadFile(filepath.Join(verifDir(), k.Replay))
+		if err != nil {
+			fmt.Fprintf(os.Stderr, "note: pinned replay %s of known finding %s is unreadable: %v\n", k.Replay, k.ID, err)
+			continue
+		}
+		var rf ReplayFile
+		if json.Unmarshal(b, &rf) != nil || rf.Case == nil {
+			continue
+		}
+		ck := checks[rf.Case.Prop+"/"+rf.Case.Build]
+		if ck == nil || bins[ck.Build] == "" {
+			continue
+		}
+		o := runIsolated(bins[ck.Build], rf.Case)
+		hit := false
+		for vi := range o.Violations {
+			if kf := matchKnown(known, &o.Violations[vi]); kf != nil && kf.ID == k.ID {
+				hit = true
+			} else if kf == nil {
+				v := o.Violations[vi]
+				rf2 := &ReplayFile{Property: prop, Build: ck.Build, Signature: v.Sig(), Violation: &v, Case: rf.Case, FoundSeed: seed, RunIndex: -1000 - i, Note: "produced by the pinned replay of known finding " + k.ID}
+				viols = append(viols, violationMsg{Replay: writeReplay(rf2), V: &v})
+			}
+		}
+		if hit {
+			total.Known[k.ID]++
+		} else {
+			fmt.Fprintf(os.Stderr, "note: pinned replay of known finding %s no longer reproduces it\n", k.ID)
+		}
 	}
 	wall := time.Since(start).Seconds()
 
